@@ -1,12 +1,14 @@
 (** C11 — A processor works only while holding exactly the resources it requires.  Statements only.
     Proved for every reachable world: the pool/holding equations and exactness; acquisition at acceptance;
-    release on failure; kept through a maintenance shutdown.  PARTIAL: "whenever time advances no idle
-    operational processor holds resources" needs the pending release-if-idle event (event-queue level) and is
-    decided by the monitor on the implementation, not yet by a theorem. *)
+    release on failure; kept through a maintenance shutdown.  And, at the level of the event queue
+    (Proofs/FloorLink.v, Proofs/FloorIdle.v): in every state reached without a Python exception — also every state inside a
+    run — a processor that holds a reservation without a part in process has an uncancelled RELEASE event of its own pending
+    at the current instant (paused with it while the processor is shut down); hence **whenever time advances no idle
+    operational processor holds resources** ([C11_idle_holds_nothing]). *)
 From Coq Require Import ZArith List Bool Lia Sorting.Permutation Sorting.Sorted.
 From RecordUpdate Require Import RecordUpdate.
 From SimVerif Require Import Model.Base Model.Env Model.FamEnv Model.RM Model.Maint Model.FloorTypes Model.Floor Model.FamFloor.
-From SimVerif Require Import Proofs.RMInv Proofs.EnvInv Proofs.EnvPause Proofs.FloorReach Proofs.FloorSteps Proofs.FloorInv Proofs.FloorSys Proofs.FloorProc Proofs.FloorFlow Proofs.FloorRes.
+From SimVerif Require Import Proofs.RMInv Proofs.EnvInv Proofs.EnvPause Proofs.FloorReach Proofs.FloorSteps Proofs.FloorInv Proofs.FloorSys Proofs.FloorProc Proofs.FloorFlow Proofs.FloorRes Proofs.FloorLink Proofs.FloorIdle.
 Import ListNotations.
 Open Scope Z_scope.
 
@@ -108,4 +110,54 @@ Proof.
     destruct (H eq_refl) as [U _]. rewrite U. reflexivity.
   - cbn. repeat constructor. intros [].
   - intros e [<-|[]]. reflexivity.
+Qed.
+
+(** * the last clause: whenever time advances no idle operational processor holds resources.
+    [reach_in sc s]: s is reached from the initialisation of a well-formed world by calls between events, scheduled user
+    events, single executed events and the start of a run, none of which raised; every state inside a whole run is such a
+    state ([C11_whole_runs_covered]). *)
+Theorem C11_idle_holds_nothing : forall sc s,
+  reach_in sc s -> (forall e, In e (queue (snd s)) -> now (snd s) < e_time e) ->
+  forall d, d_kind (getd (fst s) d) = KProcessor -> d_shut (getd (fst s) d) = false -> d_part (getd (fst s) d) = None ->
+  d_reserved (getd (fst s) d) = None.
+Proof. exact idle_processor_holds_nothing. Qed.
+
+(** the invariant behind it, at every instant: the release of an idle holder is pending now, or paused with the shut-down device *)
+Theorem C11_release_pending : forall sc s d,
+  reach_in sc s -> d_kind (getd (fst s) d) = KProcessor -> d_reserved (getd (fst s) d) <> None -> d_part (getd (fst s) d) = None ->
+  exists e : event fact, e_asset e = d /\ e_act e = Some (AReleaseIfIdle d) /\ e_cancelled e = false /\
+    ((In e (queue (snd s)) /\ e_time e = now (snd s)) \/
+     (In e (paused (snd s)) /\ e_paused_at e = Some (e_time e) /\ d_shut (getd (fst s) d) = true)).
+Proof. intros sc s d HR K RV P. apply (idle_holder_release_pending sc s d HR). split; [exact K|split; [exact RV|exact P]]. Qed.
+
+Theorem C11_whole_runs_covered : forall sc s, reach_ok sc s -> reach_in sc s.
+Proof. exact reach_ok_in. Qed.
+
+Print Assumptions C11_idle_holds_nothing.
+Print Assumptions C11_release_pending.
+Print Assumptions C11_whole_runs_covered.
+
+(** Non-vacuity: source (one part) -> processor requiring 8 of a pool of 16 -> sink.  After six executed events the processor
+    has finished its part and still holds the reservation, with only its RELEASE event pending; two events later the queue
+    is empty, the processor is idle and operational, and it holds nothing. *)
+Definition c11_world1 : fw :=
+  mkFw [(1, (blank_dev KSource) <| d_down := [2] |> <| d_cycle := 8 |> <| d_budget := Some 1 |>);
+        (2, (blank_dev KProcessor) <| d_up := [1] |> <| d_down := [3] |> <| d_cycle := 8 |> <| d_req := Some [(0, 8)] |>);
+        (3, (blank_dev KSink) <| d_up := [2] |>)] [] (add_resources 0 0 16 init_rs) [] 10 [] [] 0.
+Definition c11_sc1 : fl_scn := mkFlScn 1 1 c11_world1 [] [].
+Definition c11_t0 := fst (do_fxop c11_sc1 (c11_world1, init_env) FXInit).
+Example C11_idle_nonvacuous :
+  reach_in c11_sc1 (fx_steps c11_sc1 6 c11_t0) /\ idle_holder (getd (fst (fx_steps c11_sc1 6 c11_t0)) 2) /\
+  map (fun e => (e_time e, e_asset e)) (queue (snd (fx_steps c11_sc1 6 c11_t0))) = [(16, 2)] /\
+  reach_in c11_sc1 (fx_steps c11_sc1 8 c11_t0) /\ queue (snd (fx_steps c11_sc1 8 c11_t0)) = [] /\
+  d_kind (getd (fst (fx_steps c11_sc1 8 c11_t0)) 2) = KProcessor /\ d_shut (getd (fst (fx_steps c11_sc1 8 c11_t0)) 2) = false /\
+  d_part (getd (fst (fx_steps c11_sc1 8 c11_t0)) 2) = None /\ d_reserved (getd (fst (fx_steps c11_sc1 8 c11_t0)) 2) = None.
+Proof.
+  assert (R0 : reach_ok c11_sc1 c11_t0).
+  { apply ro_init; [vm_compute; reflexivity|]. unfold c11_t0. vm_compute. reflexivity. }
+  split; [apply reach_ok_in, fx_steps_reach; [exact R0|vm_compute; reflexivity]|].
+  split; [vm_compute; repeat split; congruence|].
+  split; [vm_compute; reflexivity|].
+  split; [apply reach_ok_in, fx_steps_reach; [exact R0|vm_compute; reflexivity]|].
+  repeat split; vm_compute; reflexivity.
 Qed.
